@@ -223,7 +223,11 @@ func (txn *writeTxnState) addDeleteTracker(meta TableMeta, trackerName string, d
 		return tableError(meta.Name(), ErrTableNotLockedForWriting)
 	}
 
-	_, _, updated := table.deleteTrackers.Insert([]byte(trackerName), dt)
+	// Build the new tree without notifying: the watch channels of the current
+	// tree belong to committed state and this transaction may still be aborted.
+	dtTxn := table.deleteTrackers.Txn()
+	dtTxn.Insert([]byte(trackerName), dt)
+	updated := dtTxn.Commit()
 	table.deleteTrackers = &updated
 	txn.db.metrics.DeleteTrackerCount(meta.Name(), table.deleteTrackers.Len())
 
